@@ -106,6 +106,9 @@ def storeTtl (m : Msg) (maximumTtl : Int) : Int :=
   let ttl := if ttl > maximumTtl then maximumTtl else ttl    -- apply maximum
   ttl
 
+/-- `negativeResp := resp.RCode != dnsmsg.RCodeSuccess` -/
+abbrev negativeResp (rcode : Nat) : Bool := rcode != 0
+
 /-- what cacheCtl.Store hands to the backend -/
 structure StoreCall where
   msg : Msg
@@ -120,7 +123,7 @@ def store (hasBackend : Bool) (resp : Option Msg) (maximumTtl : Int) : Option St
     | none => none                           -- resp == nil
     | some m =>
       if m.tc then none                      -- resp.Header.Truncated
-      else some ⟨m, storeTtl m maximumTtl, m.rcode != 0⟩   -- negativeResp := resp.RCode != RCodeSuccess
+      else some ⟨m, storeTtl m maximumTtl, negativeResp m.rcode⟩   -- negativeResp := resp.RCode != RCodeSuccess
 
 /-! ### the memory backend (otter v1.2.0) -/
 
